@@ -36,7 +36,8 @@ CONSTANTS Nodes,            \* replica ids
           Events,           \* event digests clients may add
           MaxLog,           \* bound on committed entries
           MaxBulk,
-          MaxCrashes, MaxSnapshots, MaxBackups,
+          MaxCrashes, MaxSnapshots, MaxBackups, MaxWipes,
+          TransferWritesWAL,       \* TRUE = as built: LoadSnapshot journals the transferred batches like its own writes
           RebuildCacheOnRestore,   \* TRUE = intended; FALSE = pinned code (fsm.go Restore, finding F6)
           BackupExcludesApply,     \* TRUE = intended; FALSE = pinned code: CreateBackup reads the version counter mid-apply
           QueryExcludesApply       \* TRUE = intended; FALSE = pinned code: queries run between compute and persist (F5)
@@ -51,7 +52,7 @@ VARIABLES clog,      \* committed log
           acked,     \* snapshots acknowledged to clients: seq of [version, event]
           backups,   \* set of [id, node, version, events]
           replies,   \* last query reply (observation only)
-          budget     \* remaining fault budget [crash, snap, backup]
+          budget     \* remaining fault budget [crash, snap, backup, wipe]
 
 vars == <<clog, up, dur, mem, rapplied, rsnap, lstart, acked, backups, replies, budget>>
 
@@ -77,7 +78,7 @@ Init ==
   /\ acked = <<>>
   /\ backups = {}
   /\ replies = <<>>
-  /\ budget = [crash |-> MaxCrashes, snap |-> MaxSnapshots, backup |-> MaxBackups]
+  /\ budget = [crash |-> MaxCrashes, snap |-> MaxSnapshots, backup |-> MaxBackups, wipe |-> MaxWipes]
 
 Bulks == UNION { [1..k -> Events] : k \in 1..MaxBulk }
 
@@ -147,6 +148,20 @@ Restart(n) ==
   /\ rapplied' = [rapplied EXCEPT ![n] = rsnap[n]]
   /\ UNCHANGED <<clog, dur, rsnap, lstart, acked, backups, replies, budget>>
 
+(* the disk of a stopped node is replaced: it comes back holding nothing (same identity), and is
+   brought up to date by log replay or by state transfer from whoever leads *)
+Wipe(n) ==
+  /\ ~up[n] /\ budget.wipe > 0
+  (* raft's fault model: what this node held is also held by another one (a committed entry
+     is on a majority), so nothing acknowledged is lost with the disk *)
+  /\ \E p \in Nodes \ {n} : dur[p].idx >= dur[n].idx
+  /\ dur' = [dur EXCEPT ![n] = EmptyDur]
+  /\ rsnap' = [rsnap EXCEPT ![n] = 0]
+  /\ lstart' = [lstart EXCEPT ![n] = 1]
+  /\ rapplied' = [rapplied EXCEPT ![n] = 0]
+  /\ budget' = [budget EXCEPT !.wipe = budget.wipe - 1]
+  /\ UNCHANGED <<clog, up, mem, acked, backups, replies>>
+
 (* raft snapshot + log compaction on a running idle node *)
 TakeSnapshot(n) ==
   /\ up[n] /\ mem[n].pc = "idle" /\ budget.snap > 0 /\ rapplied[n] > rsnap[n]
@@ -187,7 +202,8 @@ InstallSnapshot(p, n) ==
      /\ s.ok                                       \* otherwise the restore fails and nothing changes
      /\ LET evs == LoadBatches(dur[n].events, s.batches)
             lastB == IF s.batches = <<>> THEN [idx |-> dur[n].idx, new |-> dur[n].bver] ELSE s.batches[Len(s.batches)]
-            d2 == [idx |-> lastB.idx, bver |-> lastB.new, events |-> evs, wal |-> dur[n].wal \o s.batches] IN
+            d2 == [idx |-> lastB.idx, bver |-> lastB.new, events |-> evs,
+                   wal |-> IF TransferWritesWAL THEN dur[n].wal \o s.batches ELSE dur[n].wal] IN
         /\ dur' = [dur EXCEPT ![n] = d2]
         /\ mem' = [mem EXCEPT ![n] = [version |-> Len(evs),
                                       cache |-> IF RebuildCacheOnRestore THEN Len(evs) ELSE mem[n].cache,
@@ -196,6 +212,15 @@ InstallSnapshot(p, n) ==
   /\ rsnap' = [rsnap EXCEPT ![n] = rsnap[p]]
   /\ lstart' = [lstart EXCEPT ![n] = rsnap[p] + 1]
   /\ UNCHANGED <<clog, up, acked, backups, replies, budget>>
+
+(* every idle running node can bring any node that holds a prefix of its events up to date from
+   its own WAL: no gap, whatever mixture of own insertions and received transfers built its store
+   (fails for TransferWritesWAL = FALSE: a node that was itself restored by transfer, later
+   leading, refuses a wiped or new follower for ever) *)
+WalServesEveryone ==
+  \A p \in Nodes, n \in Nodes :
+     (p # n /\ up[p] /\ mem[p].pc = "idle" /\ Len(dur[n].events) <= Len(dur[p].events))
+        => Ship(dur[p].wal, dur[n].bver, dur[n].events = <<>>).ok
 
 (* a backup records the version of the PERSISTED state and captures the store *)
 Backup(n) ==
@@ -220,7 +245,7 @@ Next ==
   \/ \E b \in Bulks : Propose(b)
   \/ RaftInternal
   \/ \E n \in Nodes : \/ ApplyCompute(n) \/ ApplyPersist(n)
-                      \/ Crash(n) \/ Restart(n) \/ TakeSnapshot(n) \/ Backup(n) \/ Query(n)
+                      \/ Crash(n) \/ Restart(n) \/ Wipe(n) \/ TakeSnapshot(n) \/ Backup(n) \/ Query(n)
   \/ \E p \in Nodes, n \in Nodes : InstallSnapshot(p, n)
 
 Fairness == \A n \in Nodes : WF_vars(ApplyCompute(n)) /\ WF_vars(ApplyPersist(n)) /\ WF_vars(Restart(n))
@@ -261,7 +286,7 @@ QueryConsistent == replies # <<>> => (replies.hyperOf = replies.historyOf /\ rep
 BackupExact == \A b \in backups : b.claimed = b.version /\ \E i \in 0..Len(clog) : b.events = FlatUpTo(clog, i)
 
 (* C07 action property: durable state only ever grows by whole committed bulks *)
-AppendOnly == [][\A n \in Nodes : Prefix(dur[n].events, dur'[n].events) /\ dur'[n].idx >= dur[n].idx]_vars
+AppendOnly == [][\A n \in Nodes : (~up[n] /\ dur'[n] = EmptyDur) \/ (Prefix(dur[n].events, dur'[n].events) /\ dur'[n].idx >= dur[n].idx)]_vars
 
 (* C07 liveness: every running node eventually holds everything committed *)
 Converges == \A n \in Nodes : <>[](up[n] => dur[n].events = Flat(clog))
